@@ -2,7 +2,10 @@ module verif/harness
 
 go 1.19
 
-require github.com/weedbox/pokerface v0.0.0
+require (
+	github.com/weedbox/pokerface v0.0.0
+	github.com/weedbox/syncsaga v0.0.0-20230821071725-a634f0872340
+)
 
 require (
 	github.com/google/uuid v1.3.0 // indirect
@@ -13,7 +16,6 @@ require (
 	github.com/nats-io/nats.go v1.28.0 // indirect
 	github.com/nats-io/nkeys v0.4.4 // indirect
 	github.com/nats-io/nuid v1.0.1 // indirect
-	github.com/weedbox/syncsaga v0.0.0-20230821071725-a634f0872340 // indirect
 	github.com/weedbox/timebank v0.0.0-20230713013837-bd7a6f808e3e // indirect
 	golang.org/x/crypto v0.9.0 // indirect
 	golang.org/x/sys v0.8.0 // indirect
